@@ -174,7 +174,8 @@ def oracle(case, res):
     open_ = [False] * n
     recvd = [dict() for _ in range(n)]
     up = [j not in case.get("late", []) for j in range(n)]
-    owed = [[0] * n for _ in range(n)]   # owed[i][j]: i's committed total at its last commit made while j was up
+    owed = [[0] * n for _ in range(n)]   # owed[i][j]: i's committed total at its last WRITING commit made while j was up
+    dirty = [False] * n                  # the open section of node i has written
     prev = [{"v": 0, "s": 0, "h": False, "need": 0, "ve": {}, "se": {}} for _ in range(n)]
     for t, (ev, snaps) in enumerate(zip(case["events"], res["snaps"])):
         ticked = None
@@ -187,14 +188,18 @@ def oracle(case, res):
                 up[i] = True
                 continue
             if k == "w":
-                inflight[i] += pe[2] if typ == "gcounter" else 0; open_[i] = True
+                inflight[i] += pe[2] if typ == "gcounter" else 0; open_[i] = True; dirty[i] = True
             elif k == "c":
                 committed[i] += inflight[i]; inflight[i] = 0; open_[i] = False
-                for j in range(n):
-                    if up[j]:
-                        owed[i][j] = committed[i]
+                if dirty[i]:
+                    # only a commit of a section that wrote publishes an update (and makes crdt.go owe a broadcast);
+                    # an empty section commits nothing, whoever is reachable at that moment
+                    for j in range(n):
+                        if up[j]:
+                            owed[i][j] = committed[i]
+                dirty[i] = False
             elif k == "a":
-                inflight[i] = 0; open_[i] = False
+                inflight[i] = 0; open_[i] = False; dirty[i] = False
             elif k in ("t", "t*"):
                 if typ == "gcounter" and prev[i]["need"] > 0:
                     for j in range(n):
